@@ -387,6 +387,8 @@ class ConfigParser(object):
       cp.read_file(fp)
     except (configparser.DuplicateOptionError, configparser.DuplicateSectionError) as e:
       raise ConfigParserDuplicateEntryException(e.message)
+    except configparser.Error as e:
+      raise ConfigParserException("Configuration file could not be parsed: {}".format(e.message))
 
     # Process overrides
     for override in overrides:
